@@ -195,8 +195,15 @@ FIRST_RUN_MISSED = {  # seeded changes the checks did NOT catch when first confr
     "C19-21": "contents were always strings; a numberOfRecords / size of 0 and an authentication of False go through the setter now (and the oracle reads a value as present when its text is non-empty)",
     "C08-23": "comments were never followed by white space; in clean mode the document with comments followed by layout white space and the document without comments must import as the same tree",
     "C08-24": "no qualified attribute with an empty value",
+    "C06-24": "no text with the two-character sequence CR LF",
+    "C11-23": "a default namespace only on an inner element of a base, never on the root",
+    "C11-24": "every listed child had its parent link; a base whose children carry none (as the children property leaves them) was added",
+    "C16-23": "dangling references had an unrelated value; values equal to an id up to surrounding white space or case were added",
+    "C18-24": "no default namespace (key None) in compared trees; this also exposed F24 (a default namespace does not survive JSON) in the unchanged code",
+    "C19-23": "NOT DETECTED BY DESIGN: an abstract that is present but has no words (only white space / empty paras) - the oracle accepts either DATASET_ABSTRACT_MISSING or DATASET_ABSTRACT_TOO_SHORT there, the statement does not say which",
+    "C19-24": "descriptions only occurred under four of the eight parents the evaluator distinguishes; every parent name x every form of description is evaluated now",
 }
-NOT_DETECTED_BY_DESIGN = {"C19-5", "C09-8"}
+NOT_DETECTED_BY_DESIGN = {"C19-5", "C09-8", "C19-23"}
 ids = sys.argv[1:] or sorted(os.listdir(os.path.join(HERE, "seeded")))
 PAR = int(os.environ.get("SEED_PAR", "3"))
 ENV = dict(os.environ)
